@@ -360,8 +360,25 @@ def _check_main(ctx, res) -> None:
     if len(lists) < 2:
         raise AnalysisError("anchor=History list attributes (self.X = [] in __init__) fewer than 2")
 
+    # a private helper may be handed one of the lists, or the step to perform, by every caller in the class
+    list_params: Dict[str, Set[str]] = {}    # method -> parameter names that are a history list at every call site
+    step_params: Dict[str, Dict[str, Set[str]]] = {}  # method -> parameter name -> methods passed in
+    for hname, hm in hist.methods.items():
+        ps = hm.call_params()
+        sites = [c for m2 in hist.methods.values() for c in calls_in(m2.node) if is_self_attr(c.func, hname)]
+        for i, p in enumerate(ps):
+            actual = [c.args[i] for c in sites if i < len(c.args)]
+            if sites and len(actual) == len(sites) and all(is_self_attr(a) and a.attr in list_names for a in actual):
+                list_params.setdefault(hname, set()).add(p)
+            passed = {a.attr for a in actual if is_self_attr(a) and a.attr in hist.methods}
+            if passed:
+                step_params.setdefault(hname, {})[p] = passed
+    current = {"method": None}
+
     def is_hist_list(e: ast.AST) -> bool:
-        return is_self_attr(e) and e.attr in list_names
+        if is_self_attr(e) and e.attr in list_names:
+            return True
+        return isinstance(e, ast.Name) and e.id in list_params.get(current["method"], set())
 
     # helper methods that mutate a parameter list
     param_mutators: Dict[str, Set[int]] = {}
@@ -388,9 +405,14 @@ def _check_main(ctx, res) -> None:
                 if is_self_attr(c.func) and c.func.attr in fall_methods:
                     fall_methods.add(n)
                     changed = True
+                # the step handed in as a bound method: `perform(...)` where a caller passes self._perform_undos
+                if isinstance(c.func, ast.Name) and step_params.get(n, {}).get(c.func.id, set()) & fall_methods:
+                    fall_methods.add(n)
+                    changed = True
     n_hist = 0
     for name in sorted(fall_methods):
         m = hist.methods[name]
+        current["method"] = name
         cfg = CFG(m.node)
         muts, falls = [], []
         for node in cfg.nodes:
@@ -407,7 +429,8 @@ def _check_main(ctx, res) -> None:
                             muts.append((node, f"via {c.func.attr}"))
                 if (isinstance(c.func, ast.Attribute) and c.func.attr in ("do", "undo", "redo")
                         and not (isinstance(c.func.value, ast.Name) and c.func.value.id == "self")) \
-                        or (is_self_attr(c.func) and c.func.attr in fall_methods):
+                        or (is_self_attr(c.func) and c.func.attr in fall_methods) \
+                        or (isinstance(c.func, ast.Name) and step_params.get(name, {}).get(c.func.id, set()) & fall_methods):
                     falls.append(node)
         loop_heads = [n.id for n in cfg.nodes if n.kind == "loop"]
         n_hist += 1
